@@ -529,6 +529,8 @@ class SpecEval(object):
                     return mk_bool(z3.PrefixOf(args[0].t, o.t))
                 if name == 'endswith':
                     return mk_bool(z3.SuffixOf(args[0].t, o.t))
+                if name == 'lower':
+                    return SV(STR, ops.Lower(o.t))
                 if name == 'strip':
                     ctx.side.extend(ops.strip_facts(o.t))
                     return SV(STR, ops.Strip(o.t))
